@@ -17,7 +17,7 @@ from .._models import (
     enforce_url,
 )
 from .._ssl import default_ssl_context
-from .._synchronization import Lock
+from .._synchronization import Lock, ShieldCancellation
 from .._trace import Trace
 from .connection import HTTPConnection
 from .connection_pool import ConnectionPool
@@ -312,9 +312,16 @@ class TunnelHTTPConnection(ConnectionInterface):
                     "server_hostname": self._remote_origin.host.decode("ascii"),
                     "timeout": timeout,
                 }
-                with Trace("start_tls", logger, request, kwargs) as trace:
-                    stream = stream.start_tls(**kwargs)
-                    trace.return_value = stream
+                try:
+                    with Trace("start_tls", logger, request, kwargs) as trace:
+                        stream = stream.start_tls(**kwargs)
+                        trace.return_value = stream
+                except BaseException as exc:
+                    # The tunnel is unusable: don't leave the proxy connection
+                    # in the pool with the CONNECT exchange still active.
+                    with ShieldCancellation():
+                        self._connection.close()
+                    raise exc
 
                 # Determine if we should be using HTTP/1.1 or HTTP/2
                 ssl_object = stream.get_extra_info("ssl_object")
